@@ -316,7 +316,29 @@ func c16r3(p *Prog, r *Reporter) {
 	}
 	sort.Strings(fs)
 	for _, f := range fs {
-		r.Check(uf[f], p.FuncName(undo), "undo writes componentRegistry."+f, p.FnPos(undo), "the register method writes this field; the undo must restore it")
+		if !uf[f] {
+			r.Bad(p.FuncName(undo), "undo writes componentRegistry."+f, p.FnPos(undo), "the register method writes this field; the undo never does")
+			continue
+		}
+		// on every return path
+		field := f
+		mf := &MustFlow{Fn: undo, InstrGen: func(i ssa.Instruction) bool {
+			for _, w := range directWrites(i) {
+				if strings.HasPrefix(w.Path, "componentRegistry."+field) {
+					return true
+				}
+			}
+			if site, ok := i.(ssa.CallInstruction); ok {
+				for _, pa := range p.SiteMod(site).Paths() {
+					if strings.HasPrefix(pa, "componentRegistry."+field) {
+						return true
+					}
+				}
+			}
+			return false
+		}}
+		mf.Run()
+		r.Check(mf.AtAllReturns(), p.FuncName(undo), "undo writes componentRegistry."+f, p.FnPos(undo), "the register method writes this field; the undo restores it on every path (unconditionally)")
 	}
 }
 
